@@ -470,3 +470,11 @@ def extra(tier, seed):
     cov.update(evaluations=n_eval, distinct_nontrivial=n_eval if not viol else 0,
                samples=[dict(position=0, byte=0, word=odd[0]), dict(position=1, byte=255, word=even[255])])
     return dict(violations=viol, coverage=cov)
+
+
+def run_part_case(part, params):
+    """replay of a finding of the exhaustive part: the enumeration is re-run"""
+    res = CaseResult()
+    for v in extra("quick", 1)["violations"]:
+        res.violate(v["clause"], v["detail"], input_class=v["input_class"])
+    return res
